@@ -87,6 +87,11 @@ pub fn box_styles() -> Vec<(&'static str, BoxStyle)> {
         ("round.'~", BoxStyle { tl: '.', tr: '.', bl: '\'', br: '\'', hor: '~', ver: '|' }),
         ("boxdraw", BoxStyle { tl: '┌', tr: '┐', bl: '└', br: '┘', hor: '─', ver: '│' }),
         ("boxround", BoxStyle { tl: '╭', tr: '╮', bl: '╰', br: '╯', hor: '─', ver: '│' }),
+        // mixed families: ASCII corners with box-drawing lines and the other way round
+        ("mixed+─│", BoxStyle { tl: '+', tr: '+', bl: '+', br: '+', hor: '─', ver: '│' }),
+        ("mixed+-│", BoxStyle { tl: '+', tr: '+', bl: '+', br: '+', hor: '-', ver: '│' }),
+        ("mixed.─|", BoxStyle { tl: '.', tr: '.', bl: '\'', br: '\'', hor: '─', ver: '|' }),
+        ("mixed┌-|", BoxStyle { tl: '┌', tr: '┐', bl: '└', br: '┘', hor: '-', ver: '|' }),
     ];
     v.shrink_to_fit();
     v
@@ -349,6 +354,14 @@ pub fn order_corpus(kind: u32) -> Vec<String> {
     v.extend(touching_circles_family());
     v.extend(circle_parts_family());
     v.extend(overlapping_bbox_family().into_iter().step_by(4));
+    // one connected span with more than 4096 property-bearing characters (a very long rule with ticks)
+    {
+        let mut top = String::new();
+        for i in 0..4400 {
+            top.push(if i % 100 == 0 { '+' } else { '-' });
+        }
+        v.push(top);
+    }
     // a sheet of several hundred separate groups (work that an implementation might split over threads)
     {
         let mut rows: Vec<String> = vec![];
